@@ -23,7 +23,16 @@
       parser model's ledger count;
     * [mat_delete]: [cJSON_Delete] of the returned root runs without error, leaves a heap that
       encodes [F] again, and the set of live library blocks is what it was before [mat] — the
-      ledger returns to its state before the parse. *)
+      ledger returns to its state before the parse;
+    * [mat_sim] also tracks the string blocks: [strs_of t n] lists them with their contents (the
+      zero-terminated bytes), all present in the result heap, and earlier strings are untouched
+      ([str_frame]) — ParseUsableWalk.v uses this to read the tree back from the heap.
+
+    What is NOT proved: that the C parser's inline linking (parse_array / parse_object set next/prev
+    as they go and head.prev at the end) produces this same heap for every tree; [mat] links with
+    add_item_to_array instead.  On the non-vacuity example the two constructions are computed to
+    give identical heaps (ParseUsableAll.mat_agrees_with_inline_linking_on_example), and the
+    implementation side of the check walks, prints and deletes every returned tree under ASan. *)
 From CJ Require Import Base Dbl Tree ParseDefs Heap Forest ForestLemmas CoreSpec CoreDefs CoreRefineBase
   CoreRefine CoreRefineDelete CoreRefineAddObject CoreRefineHistory.
 From CJ.gen Require Import Constants.
@@ -147,6 +156,39 @@ Fixpoint plain (n : node) : bool :=
       (Z.land ty c_cJSON_IsReference =? 0)%Z && (Z.land ty c_cJSON_StringIsConst =? 0)%Z && forallb plain ch
   end.
 
+(** the string blocks of the image with their contents (the parser's zero-terminated copies) *)
+Definition opt_entry (o : option bytes) (n : positive) : list (positive * bytes) :=
+  match o with Some s => [(n, s ++ [0%Z])] | None => [] end.
+Fixpoint strs_list (f : node -> positive -> list (positive * bytes)) (l : list node) (m : positive)
+    : list (positive * bytes) :=
+  match l with [] => [] | c :: r => f c m ++ strs_list f r (m + nblocks c)%positive end.
+Fixpoint strs_of (t : node) (n : positive) : list (positive * bytes) :=
+  match t with
+  | Node ty vs vi vd key ch =>
+      let n1 := Pos.succ n in
+      let n2 := opt_cnt vs n1 in
+      let n3 := opt_cnt key n2 in
+      opt_entry vs n1 ++ opt_entry key n2 ++
+      (fix go (l : list node) (m : positive) : list (positive * bytes) :=
+         match l with [] => [] | c :: r => strs_of c m ++ go r (m + nblocks c)%positive end) ch n3
+  end.
+
+Lemma strs_of_unfold ty vs vi vd key ch n :
+  strs_of (Node ty vs vi vd key ch) n =
+    let n1 := Pos.succ n in
+    let n2 := opt_cnt vs n1 in
+    let n3 := opt_cnt key n2 in
+    opt_entry vs n1 ++ opt_entry key n2 ++ strs_list strs_of ch n3.
+Proof.
+  change (strs_of (Node ty vs vi vd key ch) n) with
+    (opt_entry vs (Pos.succ n) ++ opt_entry key (opt_cnt vs (Pos.succ n)) ++
+     (fix go (l : list node) (m : positive) : list (positive * bytes) :=
+        match l with [] => [] | c :: r => strs_of c m ++ go r (m + nblocks c)%positive end) ch
+       (opt_cnt key (opt_cnt vs (Pos.succ n)))).
+  cbv zeta. do 2 f_equal. generalize (opt_cnt key (opt_cnt vs (Pos.succ n))).
+  induction ch as [|c r IH]; intros m; [done|]. cbn [strs_list]. by rewrite IH.
+Qed.
+
 Lemma nblocks_unfold ty vs vi vd k ch :
   nblocks (Node ty vs vi vd k ch) = nblocks_list ch (opt_cnt k (opt_cnt vs 1%positive)).
 Proof.
@@ -157,6 +199,9 @@ Qed.
 
 Lemma nblocks_list_add l (a b : positive) : nblocks_list l (a + b)%positive = (a + nblocks_list l b)%positive.
 Proof. unfold nblocks_list. induction l as [|c r IH]; [done|]. cbn [fold_right]. rewrite IH. lia. Qed.
+
+Lemma nblocks_list_ge l (a : positive) : (a <= nblocks_list l a)%positive.
+Proof. unfold nblocks_list. induction l as [|c r IH]; cbn [fold_right]; lia. Qed.
 
 Lemma blocks_unfold ty vs vi vd k ch :
   blocks (Node ty vs vi vd k ch) =
@@ -213,15 +258,31 @@ Proof.
   - rewrite lookup_insert_ne by done. tauto.
 Qed.
 
+(** string blocks: what an earlier state holds below its allocation frontier is still there *)
+Definition str_frame h (h' : heap) : Prop :=
+  forall b (s : bytes), h_str h !! b = Some s -> (b < h_next h)%positive -> h_str h' !! b = Some s.
+Definition strs_in (h' : heap) (l : list (positive * bytes)) : Prop :=
+  forall b (s : bytes), (b, s) ∈ l -> h_str h' !! b = Some s /\ (b < h_next h')%positive.
+
+Lemma str_frame_same h (h' : heap) : h_str h' = h_str h -> str_frame h h'.
+Proof. intros E b s H _. by rewrite E. Qed.
+Lemma str_frame_trans h1 h2 h3 : (h_next h1 <= h_next h2)%positive -> str_frame h1 h2 -> str_frame h2 h3 -> str_frame h1 h3.
+Proof. intros Hle F1 F2 b s H Hb. apply F2; [by apply F1|lia]. Qed.
+Lemma strs_in_frame h1 h2 l : (h_next h1 <= h_next h2)%positive -> str_frame h1 h2 -> strs_in h1 l -> strs_in h2 l.
+Proof. intros Hle F1 S b s Hin. destruct (S b s Hin) as [H1 H2]. split; [by apply F1|lia]. Qed.
+Lemma strs_in_app h l1 l2 : strs_in h l1 -> strs_in h l2 -> strs_in h (l1 ++ l2).
+Proof. intros S1 S2 b s Hin. apply elem_of_app in Hin as [Hin|Hin]; [by apply S1|by apply S2]. Qed.
+
 Lemma alloc_opt_str_spec s h :
   exists h2, alloc_opt_str s h = Ret (opt_id s (h_next h), h2) /\
     h_next h2 = opt_cnt s (h_next h) /\ h_lnk h2 = h_lnk h /\ h_dat h2 = h_dat h /\
     (forall F, WF h F -> WF h2 F) /\
     (forall b, good h b -> good h2 b) /\
     (forall b, opt_id s (h_next h) = Some b -> good h2 b) /\
-    lib_live h2 = lib_live h ∪ list_to_set (opt_list (opt_id s (h_next h))).
+    lib_live h2 = lib_live h ∪ list_to_set (opt_list (opt_id s (h_next h))) /\
+    str_frame h h2 /\ strs_in h2 (opt_entry s (h_next h)).
 Proof.
-  destruct s as [s|]; cbn [alloc_opt_str opt_id opt_cnt opt_list].
+  destruct s as [s|]; cbn [alloc_opt_str opt_id opt_cnt opt_list opt_entry].
   - exists (alloc_str h (s ++ [0%Z])). split; [apply run_alloc_bytes|]. split_and!; try done.
     + intros F. apply WF_alloc_str.
     + intros b (G1 & G2 & G3). split_and!; cbn.
@@ -230,7 +291,12 @@ Proof.
       * lia.
     + intros b [= <-]. split_and!; cbn; [apply elem_of_union; left; by apply elem_of_singleton|by rewrite lookup_insert|lia].
     + unfold alloc_str. rewrite lib_live_alloc. generalize (lib_live h). intros X. usets.
-  - exists h. split_and!; try done. cbn. generalize (lib_live h). intros X. usets.
+    + intros b s0 Hs Hb. cbn. rewrite lookup_insert_ne; [done|]. intros <-. lia.
+    + intros b s0 Hin. apply elem_of_list_singleton in Hin. injection Hin as -> ->. cbn. rewrite lookup_insert. split; [done|lia].
+  - exists h. split_and!; try done.
+    + cbn. generalize (lib_live h). intros X. usets.
+    + by apply str_frame_same.
+    + intros b s0 Hin. by apply elem_of_nil in Hin.
 Qed.
 
 (** * forest bookkeeping for a fresh root *)
@@ -272,7 +338,8 @@ Proof. intros W Hin. exact (Pos.lt_irrefl _ (WF_ids_fresh _ _ _ W Hin)). Qed.
 Definition mat_post (t : node) h F (h' : heap) : Prop :=
   let tr := forest_of t (h_next h) in
   WF h' (F ++ [tr]) /\ h_next h' = (h_next h + nblocks t)%positive /\
-  lib_live h' = lib_live h ∪ list_to_set (owned [tr]).
+  lib_live h' = lib_live h ∪ list_to_set (owned [tr]) /\
+  str_frame h h' /\ strs_in h' (strs_of t (h_next h)).
 
 Definition mat_ok (t : node) : Prop :=
   forall h F, plain t = true -> WF h F ->
@@ -289,13 +356,17 @@ Lemma link_children_sim cs : Forall mat_ok cs -> forallb plain cs = true ->
   exists h', link_children mat (Some p) cs h = Ret (tt, h') /\
     WF h' (F ++ [T p d (done ++ map_acc forest_of cs (h_next h))]) /\
     h_next h' = nblocks_list cs (h_next h) /\
-    lib_live h' = lib_live h ∪ list_to_set (owned (map_acc forest_of cs (h_next h))).
+    lib_live h' = lib_live h ∪ list_to_set (owned (map_acc forest_of cs (h_next h))) /\
+    str_frame h h' /\ strs_in h' (strs_list strs_of cs (h_next h)).
 Proof.
   induction 1 as [|c r Hc _ IH]; intros Hpl done h F p d W Hp Href.
-  - exists h. cbn [link_children map_acc nblocks_list fold_right]. rewrite app_nil_r. split_and!; try done. change (owned []) with (@nil positive). generalize (lib_live h). intros X. usets.
+  - exists h. cbn [link_children map_acc nblocks_list fold_right strs_list]. rewrite app_nil_r. split_and!; try done.
+    + change (owned []) with (@nil positive). generalize (lib_live h). intros X. usets.
+    + by apply str_frame_same.
+    + intros b s Hin. by apply elem_of_nil in Hin.
   - cbn [forallb] in Hpl. apply andb_true_iff in Hpl as [Hpc Hpr].
     set (F1 := F ++ [T p d done]) in *. set (x := h_next h).
-    destruct (Hc h F1 Hpc W) as (ha & Hrun & Wa & Hna & Hla). fold x in Hrun, Wa, Hna, Hla.
+    destruct (Hc h F1 Hpc W) as (ha & Hrun & Wa & Hna & Hla & Hfa & Hsa). fold x in Hrun, Wa, Hna, Hla, Hsa.
     set (tc := forest_of c x) in *.
     assert (Htid : tid tc = x) by apply tid_forest_of.
     assert (HpF1 : p ∈ ids F1).
@@ -313,9 +384,12 @@ Proof.
     destruct (add_item_to_array_sim ha (F1 ++ [tc]) p x tc d done Wa Hpx Hfr Hft Href) as (_ & Hadd & Wb).
     rewrite Hrm in Hadd, Wb. unfold F1 in Hadd, Wb. rewrite (set_children_app_last p d done (done ++ [tc]) F Hp) in Hadd, Wb.
     set (hb := upd_maps ha _ _) in *.
-    destruct (IH Hpr (done ++ [tc]) hb F p d Wb Hp Href) as (h' & Hrun' & W' & Hn' & Hl').
+    destruct (IH Hpr (done ++ [tc]) hb F p d Wb Hp Href) as (h' & Hrun' & W' & Hn' & Hl' & Hf' & Hs').
     assert (Hnb : h_next hb = (x + nblocks c)%positive) by exact Hna.
-    rewrite Hnb in W', Hn', Hl'.
+    rewrite Hnb in W', Hn', Hl', Hs'.
+    assert (Hfb : str_frame ha hb) by (by apply str_frame_same).
+    assert (Hle1 : (h_next h <= h_next ha)%positive) by (rewrite Hna; fold x; lia).
+    assert (Hle2 : (h_next hb <= h_next h')%positive) by (rewrite Hn', Hnb; apply nblocks_list_ge).
     exists h'. split_and!.
     + cbn [link_children]. rewrite (bindM_Ret _ _ _ _ _ Hrun). rewrite (bindM_Ret _ _ _ _ _ Hadd). exact Hrun'.
     + cbn [map_acc]. fold x. fold tc. by rewrite <- app_assoc in W'.
@@ -324,6 +398,9 @@ Proof.
     + rewrite Hl'. cbn [map_acc]. fold x. fold tc. rewrite (owned_cons tc).
       change (lib_live hb) with (lib_live ha). rewrite Hla. rewrite list_to_set_app_L.
       generalize (lib_live h), (owned [tc]), (owned (map_acc forest_of r (x + nblocks c)%positive)). intros X Y Z. usets.
+    + apply (str_frame_trans h ha h' Hle1 Hfa). intros b s Hb Hlt. by apply Hf'.
+    + cbn [strs_list]. fold x. apply strs_in_app; [|exact Hs'].
+      apply (strs_in_frame hb h'); [done|done|]. intros b s Hin. exact (Hsa b s Hin).
 Qed.
 
 Lemma is_ref_false ty a1 a2 a3 a4 a5 : (Z.land ty c_cJSON_IsReference =? 0)%Z = true -> is_ref (mkRD ty a1 a2 a3 a4 a5) = false.
@@ -341,8 +418,8 @@ Proof.
   set (h1 := alloc_typed h 0) in *.
   assert (Hl1 : lib_live h1 = {[n0]} ∪ lib_live h) by apply lib_live_alloc.
   (* the strings *)
-  destruct (alloc_opt_str_spec vs h1) as (h2 & R2 & N2 & L2 & D2 & WF2 & G2 & GN2 & LL2).
-  destruct (alloc_opt_str_spec key h2) as (h3 & R3 & N3 & L3 & D3 & WF3 & G3 & GN3 & LL3).
+  destruct (alloc_opt_str_spec vs h1) as (h2 & R2 & N2 & L2 & D2 & WF2 & G2 & GN2 & LL2 & SF2 & SI2).
+  destruct (alloc_opt_str_spec key h2) as (h3 & R3 & N3 & L3 & D3 & WF3 & G3 & GN3 & LL3 & SF3 & SI3).
   change (h_next h1) with (Pos.succ n0) in *. rewrite N2 in *.
   set (n1 := Pos.succ n0) in *. set (n2 := opt_cnt vs n1) in *. set (n3 := opt_cnt key n2) in *.
   set (d0 := rd_typed 0) in *.
@@ -399,8 +476,13 @@ Proof.
   (* the children *)
   assert (Hp0 : n0 ∉ ids F) by (by apply fresh_not_id).
   assert (Href : is_ref d = false) by (by apply is_ref_false).
-  destruct (link_children_sim ch IH Hplc [] h4 F n0 d W4 Hp0 Href) as (h5 & R5 & W5 & N5 & L5).
-  change (h_next h4) with (h_next h3) in *. rewrite N3 in *. fold n3 in W5, N5, L5.
+  destruct (link_children_sim ch IH Hplc [] h4 F n0 d W4 Hp0 Href) as (h5 & R5 & W5 & N5 & L5 & SF5 & SI5).
+  assert (SF01 : str_frame h h1) by (by apply str_frame_same).
+  assert (SF34 : str_frame h3 h4) by (by apply str_frame_same).
+  change (h_next h4) with (h_next h3) in *. rewrite N3 in *. fold n3 in W5, N5, L5, SI5.
+  assert (Hle12 : (n1 <= n2)%positive) by (unfold n2; destruct vs; cbn; lia).
+  assert (Hle23 : (n2 <= n3)%positive) by (unfold n3; destruct key; cbn; lia).
+  assert (Hle35 : (n3 <= h_next h5)%positive) by (rewrite N5; apply nblocks_list_ge).
   exists h5. split.
   - rewrite mat_unfold. rewrite (bindM_Ret _ _ _ _ _ (run_alloc_node h)). fold h1. fold n0.
     rewrite (bindM_Ret _ _ _ _ _ R2). rewrite (bindM_Ret _ _ _ _ _ R3). fold n1. fold n2.
@@ -413,6 +495,19 @@ Proof.
     + rewrite L5. change (lib_live h4) with (lib_live h3). rewrite LL3, LL2, Hl1.
       rewrite owned_singleton, Hstrs. rewrite list_to_set_cons, !list_to_set_app_L.
       generalize (lib_live h), (owned (map_acc forest_of ch n3)). intros X Y. usets.
+    + apply (str_frame_trans h h1 h5); [cbn; lia|done|].
+      apply (str_frame_trans h1 h2 h5); [rewrite N2; fold n1 n2; done|done|].
+      apply (str_frame_trans h2 h3 h5); [rewrite N2, N3; fold n1 n2 n3; done|done|].
+      apply (str_frame_trans h3 h4 h5); [done|done|]. intros b s Hb Hlt. apply SF5; [done|]. exact Hlt.
+    + rewrite strs_of_unfold. cbv zeta. fold n1 n2 n3.
+      assert (SF45 : str_frame h4 h5) by (intros b s Hb Hlt; by apply SF5).
+      assert (N4 : h_next h4 = n3) by (change (h_next h4) with (h_next h3); exact N3).
+      apply strs_in_app; [|apply strs_in_app; [|exact SI5]].
+      * apply (strs_in_frame h4 h5); [rewrite N4; done|done|].
+        apply (strs_in_frame h3 h4); [done|done|].
+        apply (strs_in_frame h2 h3); [rewrite N2, N3; fold n1 n2 n3; done|done|]. exact SI2.
+      * apply (strs_in_frame h4 h5); [rewrite N4; done|done|].
+        apply (strs_in_frame h3 h4); [done|done|]. exact SI3.
 Qed.
 
 (** * the number of blocks the image owns is the parser's ledger count *)
@@ -455,7 +550,7 @@ Theorem mat_delete t h F :
     cJSON_Delete (Some (h_next h)) h' = Ret (tt, h'') /\
     WF h'' F /\ NoLeak h'' F /\ lib_live h'' = lib_live h.
 Proof.
-  intros Hpl W NL. destruct (mat_sim t h F Hpl W) as (h' & Hrun & W' & Hn' & Hl').
+  intros Hpl W NL. destruct (mat_sim t h F Hpl W) as (h' & Hrun & W' & Hn' & Hl' & _ & _).
   set (x := h_next h) in *. set (tr := forest_of t x) in *.
   assert (Htid : tid tr = x) by apply tid_forest_of.
   assert (Hxr : x ∉ roots F).
